@@ -8,6 +8,7 @@
 #include "oracle/universes.hpp"
 #include "tbgen.hpp"
 
+#include <dlfcn.h>
 using namespace vh;
 static Result R;
 static Worker* W;
@@ -20,6 +21,19 @@ static PieceCount toPC(const std::vector<int>& pcs) {
         case Piece::BQUEEN: pc.nbq++; break; case Piece::BROOK: pc.nbr++; break; case Piece::BBISHOP: pc.nbb++; break; case Piece::BKNIGHT: pc.nbn++; break;
     }
     return pc;
+}
+
+// ---- clock seam (as in the C12 harness): the k-th clock query made while armed delivers a "stop" to the running search (what
+// EngineControl::stopSearch does from the protocol thread: Search::timeLimit(0, 0)); the on-demand generator polls the clock while it builds.
+static long long clockQueries = 0, faultAt = -1;
+static bool armed = false;
+static Search* armedSearch = nullptr;
+extern "C" int clock_gettime(clockid_t id, struct timespec* ts) {
+    typedef int (*fn_t)(clockid_t, struct timespec*);
+    static fn_t real = (fn_t)dlsym(RTLD_NEXT, "clock_gettime");
+    int rc = real(id, ts);
+    if (armed && id == CLOCK_MONOTONIC) { long long q = clockQueries++; if (q == faultAt && armedSearch) armedSearch->timeLimit(0, 0); }
+    return rc;
 }
 
 struct Val { int kind; int n; };   // kind: +1 win in n moves, -1 loss in n moves, 0 draw
@@ -90,6 +104,58 @@ static void checkRoot(sd::Env& env, TBGenerator<VectorStorage>& gen, Position& p
     }
 }
 
+static void cancelCase(TBGenerator<VectorStorage>& gen, Position& pos, bool is3men, const std::string& cls, long long k) {
+    W->crumb(cls + " cancelled-build k=" + std::to_string(k) + " " + TextIO::toFEN(pos));
+    sd::Env env(1024 * 1024);
+    sd::Params p; p.maxDepth = -1; p.maxNodes = -1; p.stopAfterPolls = 1000000; p.minTimeMs = 100000000; p.maxTimeMs = 100000000;   // time-only search, like go infinite
+    p.onSearchCreated = [&](Search& sc) { armedSearch = &sc; };
+    clockQueries = 0; faultAt = k; armed = true;
+    sd::Outcome first = sd::run(env, pos, p);
+    armed = false; armedSearch = nullptr;
+    R.count("cancelled_first_searches"); R.count("transitions", (long long)first.lines.size());
+    R.outcome(std::string("resident-after-cancel:") + (env.tt.tbGen ? "yes" : "no"));
+    checkRoot(env, gen, pos, is3men, cls + "+after-cancel@" + std::to_string(k));
+}
+/** "... and keeps them" across a cancelled build: a first time-only search of the root is stopped at the k-th clock query (for every k up to the
+ *  number of queries of an undisturbed build: inside the table generation), then the root is searched again without limit and judged like any
+ *  other root. Whatever the first search left behind (nothing, after a cancelled build) must not spoil the second. */
+static void cancelledBuild(const std::vector<int>& pcs, const std::string& cls, int maxRoots, long kStride) {
+    VectorStorage vs; TBGenerator<VectorStorage> gen(vs, toPC(pcs)); RelaxedShared<S64> inf(-1);
+    if (!gen.generate(inf, false)) { R.violation("harness:reference-generation-failed", cls, "{}"); return; }
+    std::vector<int> all = {orc::WK, orc::BK}; for (int p : pcs) all.push_back(p);
+    // roots: the longest win, the longest loss and a draw among every 97th placement
+    std::vector<Position> roots; int bestWin = 0, bestLoss = 0; Position pw, pl, pd; bool haveDraw = false;
+    unsigned long long c = 0, vc = 0; uni::Part P1{0, 1};
+    uni::placeAll(all, 2, P1, [&](const orc::Board& b, unsigned long long) {
+        if (vc++ % 97 != 0) return;
+        Position pos; try { pos = TextIO::readFEN(orc::toFEN(b)); } catch (const ChessParseError&) { return; }
+        int s; if (!gen.probeDTM(pos, 0, s)) return;
+        MoveList lm; MoveGen::pseudoLegalMoves(pos, lm); MoveGen::removeIllegal(pos, lm); if (lm.size == 0) return;
+        Val v = toVal(s);
+        if (v.kind > 0 && v.n > bestWin) { bestWin = v.n; pw = pos; }
+        if (v.kind < 0 && v.n > bestLoss) { bestLoss = v.n; pl = pos; }
+        if (v.kind == 0 && !haveDraw) { haveDraw = true; pd = pos; }
+    }, c, [&]() { return false; });
+    if (bestWin) roots.push_back(pw); if (bestLoss) roots.push_back(pl); if (haveDraw) roots.push_back(pd);
+    if ((int)roots.size() > maxRoots) roots.resize((size_t)maxRoots);
+    // clock queries of an undisturbed table build with a (large) time limit: the generator polls the clock only when one is set
+    long long nq = 0;
+    { TranspositionTable tt(1024 * 1024); RelaxedShared<S64> big(100000000); clockQueries = 0; faultAt = -1; armed = true; bool ok = tt.updateTB(roots[0], big); armed = false; nq = clockQueries;
+      if (!ok) { R.violation("harness:undisturbed-build-failed", cls, "{}"); return; } }
+    R.maxOf("clock_queries_of_a_build", nq);
+    // injection points: every kStride-th query, every query around the end of the build (the last test before the retrograde phase), and a few
+    // after it (the search proper); + 8 for the queries the search makes before it starts the build
+    std::set<long long> ks; for (long long k = 0; k < nq + 8; k += kStride) ks.insert(k);
+    for (long long k = std::max(0LL, nq - 6); k < nq + 16; k++) ks.insert(k);
+    unsigned long long id = 0;
+    for (size_t ri = 0; ri < roots.size(); ri++) for (long long k : ks) {
+        if (!W->mine(id++)) continue;
+        if (W->dl.hit()) { R.exhaustive = false; return; }
+        Position pos = roots[ri];
+        cancelCase(gen, pos, pcs.size() == 1, cls, k);
+    }
+}
+
 int main(int argc, char** argv) {
     Worker w(argc, argv); W = &w;
     br::initTexel(); evs::check();
@@ -119,9 +185,20 @@ int main(int argc, char** argv) {
         VectorStorage vs; TBGenerator<VectorStorage> gen(vs, toPC(pcs)); RelaxedShared<S64> inf(-1); gen.generate(inf, false);
         sd::Env env(1024 * 1024);
         std::string rc = jsonGetStr(txt, "class");
-        if (rc.find("+timed") != std::string::npos) { Result keep = R; checkRoot(env, gen, pos, pcs.size() == 1, rc.substr(0, rc.find('+'))); R = keep; checkRoot(env, gen, pos, pcs.size() == 1, rc, 1500); }
+        if (rc.find("+after-cancel@") != std::string::npos) cancelCase(gen, pos, pcs.size() == 1, rc.substr(0, rc.find('+')), atoll(rc.c_str() + rc.find('@') + 1));
+        else if (rc.find("+timed") != std::string::npos) { Result keep = R; checkRoot(env, gen, pos, pcs.size() == 1, rc.substr(0, rc.find('+'))); R = keep; checkRoot(env, gen, pos, pcs.size() == 1, rc, 1500); }
         else checkRoot(env, gen, pos, pcs.size() == 1, rc);
         w.finish(R); return 0;
+    }
+    if (part == "cancel") {
+        for (auto& pcs : classes) {
+            std::string cls = uni::className([&]() { std::vector<int> v = {orc::WK, orc::BK}; for (int p : pcs) v.push_back(p); return v; }());
+            cancelledBuild(pcs, cls, (int)w.args.getInt("roots", 3), w.args.getInt("kstride", 1));
+            if (R.samples.size() < 3) R.sampleStr(cls + " cancelled builds");
+        }
+        R.count("evaluations", R.counters["states"]);
+        w.finish(R);
+        return 0;
     }
     for (auto& pcs : classes) {
         std::string cls = uni::className([&]() { std::vector<int> v = {orc::WK, orc::BK}; for (int p : pcs) v.push_back(p); return v; }());
